@@ -908,3 +908,62 @@ M('C18-n-clip-with-ifexp', 'C18', F_GAME,
   "            lo = max(start_addr, start_a)\n",
   "            lo = start_addr if start_addr > start_a else start_a\n",
   kind='neutral')
+
+# ---------------------------------------------------------------- C17 ----
+M('C17-revert-fix21-x', 'C17', F_GFX,
+  "                        ((first_x_coord + x) >= 128)):\n",
+  "                        ((first_x_coord + x) > 128)):\n", expect='R-C17-bounds')
+M('C17-revert-fix21-y', 'C17', F_GFX,
+  "                    ((first_y_coord + y) >= 128) or\n",
+  "                    ((first_y_coord + y) > 128) or\n", expect='R-C17-bounds')
+M('C17-revert-fix22', 'C17', F_MAP,
+  "                if ((tile_y + y) > 63) or ((tile_x + x) > 127):\n",
+  "                if ((tile_y + y) > 127) or ((tile_x + x) > 127):\n",
+  expect='R-C17-bounds')
+M('C17-get-cell-row-32', 'C17', F_MAP,
+  "        if y <= 31:\n            return self._data[y * 128 + x]\n",
+  "        if y <= 32:\n            return self._data[y * 128 + x]\n",
+  expect='R-C17-')
+M('C17-shared-offset', 'C17', F_MAP,
+  "            self._gfx._data[4096 + (y - 32) * 128 + x] = val\n",
+  "            self._gfx._data[4095 + (y - 32) * 128 + x] = val\n",
+  expect='R-C17-inverse')
+M('C17-volume-mask', 'C17', F_SFX,
+  "            msb = (msb & 0xf1) | (volume << 1)\n",
+  "            msb = (msb & 0xf0) | (volume << 1)\n", expect='R-C17-frame')
+M('C17-channel-mask', 'C17', F_MUSIC,
+  "        pattern = self._data[id * 4 + channel] & 0x7f\n",
+  "        pattern = self._data[id * 4 + channel] & 0xff\n",
+  expect='R-C17-inverse')
+M('C17-sprite-parity', 'C17', F_GFX,
+  "                            if x_offset % 2 == 0:\n"
+  "                                row.append(b & 0x0f)\n",
+  "                            if x_offset % 2 == 1:\n"
+  "                                row.append(b & 0x0f)\n", expect='R-C17-inverse')
+M('C17-setter-touches-neighbour', 'C17', F_SFX,
+  "        self._data[id * 68 + note * 2] = lsb\n",
+  "        self._data[id * 68 + note * 2] = lsb\n"
+  "        self._data[id * 68 + note * 2 + 2] = 0\n", expect='R-C17-frame')
+M('C17-clear-flags-wrong', 'C17', F_GFF,
+  "        self._data[id] &= (~flags & ALL)\n",
+  "        self._data[id] &= (flags & ALL)\n", expect='R-C17-frame')
+M('C17-effect-shift', 'C17', F_SFX,
+  "        effect = (msb & 0x70) >> 4\n", "        effect = (msb & 0x70) >> 3\n",
+  expect='R-C17-inverse')
+M('C17-music-flag-byte', 'C17', F_MUSIC,
+  "        end = (self._data[id * 4 + 1] & 0x80) > 0\n",
+  "        end = (self._data[id * 4 + 2] & 0x80) > 0\n", expect='R-C17-inverse')
+M('C17-loop-end-offset', 'C17', F_SFX,
+  "            self._data[id * 68 + 67] = loop_end\n",
+  "            self._data[id * 68 + 66] = loop_end\n", expect='R-C17-inverse')
+M('C17-n-clip-equivalent', 'C17', F_GFX,
+  "                        ((first_x_coord + x) >= 128)):\n",
+  "                        ((first_x_coord + x) > 127)):\n", kind='neutral')
+M('C17-n-hoist-index', 'C17', F_SFX,
+  "        lsb = self._data[id * 68 + note * 2]\n"
+  "        msb = self._data[id * 68 + note * 2 + 1]\n"
+  "        pitch = lsb & 0x3f\n",
+  "        base = id * 68 + note * 2\n"
+  "        lsb = self._data[base]\n"
+  "        msb = self._data[base + 1]\n"
+  "        pitch = lsb & 0x3f\n", kind='neutral')
